@@ -25,7 +25,7 @@
 (* gives them: the generator is typed and calibrated against the Go        *)
 (* toolchain.                                                              *)
 (***************************************************************************)
-EXTENDS GoString, FiniteSets, TLC, Json
+EXTENDS GoString, GoStrLib, FiniteSets, TLC, Json
 
 CONSTANT ProgFile
 Progs == JsonDeserialize(ProgFile)
@@ -211,6 +211,7 @@ EvalExpr(S, n, rest) ==
       [] e.k = "maplit" -> [S EXCEPT !.ctl = ExprItems(e.kvs) \o <<[k |-> "domaplit", n |-> Len(e.kvs)]>> \o rest]
       [] e.k = "new"   -> [S EXCEPT !.ctl = ExprItems(e.fvals) \o <<[k |-> "donew", n |-> n]>> \o rest]
       [] e.k = "choice" -> [S EXCEPT !.ctl = <<[k |-> "dochoice", n |-> e.n]>> \o rest]
+      [] e.k = "lib"   -> [S EXCEPT !.ctl = ExprItems(e.args) \o <<[k |-> "dolib", fn |-> e.fn, nargs |-> Len(e.args)]>> \o rest]
 
 \* a value used as slice index / bound
 IntOf(v) == v.v
@@ -443,6 +444,23 @@ Steps(S) ==
             Ret(IF n < 0 THEN PanicState([S EXCEPT !.ctl = rest], "makeslice: len out of range", it.line)
                 ELSE [S EXCEPT !.heap = Append(@, [k |-> "arr", elems |-> [i \in 1..n |-> ZeroOf(N(it.zero))]]),
                                !.vals = <<SliceV(Len(S.heap) + 1, 0, n, n)>> \o DropN(@, 1), !.ctl = rest])
+      [] it.k = "dolib" ->        \* a bundled library function (GoStrLib): arguments oldest first
+            LET a == TopN(S.vals, it.nargs)
+                S2 == [S EXCEPT !.vals = DropN(@, it.nargs), !.ctl = rest]
+                push(v) == [S2 EXCEPT !.vals = <<v>> \o @]
+            IN Ret(CASE it.fn = "strings.Contains"   -> push(BoolV(LibContains(a[1].s, a[2].s)))
+                     [] it.fn = "strings.Repeat"     -> push(StrV(LibRepeat(a[1].s, a[2].v)))
+                     [] it.fn = "strings.TrimSuffix" -> push(StrV(LibTrimSuffix(a[1].s, a[2].s)))
+                     [] it.fn = "strings.TrimSpace"  -> push(StrV(LibTrimSpace(a[1].s)))
+                     [] it.fn = "strings.TrimRight"  -> push(StrV(LibTrimRight(a[1].s, a[2].s)))
+                     [] it.fn = "strings.ReplaceAll" -> push(StrV(LibReplaceAll(a[1].s, a[2].s, a[3].s)))
+                     [] it.fn = "strings.Replace"    -> push(StrV(LibReplace(a[1].s, a[2].s, a[3].s, a[4].v)))
+                     [] it.fn = "strings.Join"       -> push(StrV(LibJoin([i \in 1..a[1].len |-> ElemsOf(S, a[1])[i].s], a[2].s)))
+                     [] it.fn = "strconv.Itoa"       -> push(StrV(LibItoa(a[1].v)))
+                     [] it.fn = "strings.Split"      ->
+                            LET parts == LibSplit(a[1].s, a[2].s) IN
+                            [S2 EXCEPT !.heap = Append(@, [k |-> "arr", elems |-> [i \in 1..Len(parts) |-> StrV(parts[i])]]),
+                                       !.vals = <<SliceV(Len(S.heap) + 1, 0, Len(parts), Len(parts))>> \o @])
       [] it.k = "doslicelit" ->
             Ret([S EXCEPT !.heap = Append(@, [k |-> "arr", elems |-> TopN(S.vals, it.n)]),
                           !.vals = <<SliceV(Len(S.heap) + 1, 0, it.n, it.n)>> \o DropN(@, it.n), !.ctl = rest])
